@@ -321,6 +321,9 @@ class AffTok(Ext):
     def atom(name):
         return AffTok((name,))
 
+    def sym_hashkey(self):
+        return ("affine", self.app)
+
     def sym_matmul(self, it, other):
         if not isinstance(other, AffTok):
             raise Undecided("@ with a non-affine value")
